@@ -42,6 +42,8 @@ type vfWaiter struct {
 	result   chan string
 	cancel   context.CancelFunc
 	returned string
+	ptr      *Trace // what Await handed out (kept: it must not change afterwards)
+	ptrName  string
 }
 
 type vfSlot struct {
@@ -157,6 +159,9 @@ func vfRunSequence(rep *verifkit.Report, seq []string, nextID *int) {
 			}
 			go func() {
 				got, err := tr.Await(sc, name)
+				if got != nil {
+					wt.ptr, wt.ptrName = got, got.TestName
+				}
 				wt.result <- vfAwaitOutcome(got, err)
 			}()
 			select {
@@ -251,6 +256,17 @@ func vfRunSequence(rep *verifkit.Report, seq []string, nextID *int) {
 			w["probe"] = map[string]any{"name": name, "model_state": sl.state, "got": out, "want": want}
 			key := "handoff/final-state/" + sl.state
 			rep.Violation(key, fmt.Sprintf("after the sequence, name %q is %s in the model (want %s) but Await gives %q", name, sl.state, want, out), w)
+		}
+	}
+	// a trace that was handed to a waiter is the waiter's: later operations on the tracer do not change it
+	for _, wt := range waiters {
+		if wt.ptr == nil || !strings.HasPrefix(wt.returned, "trace:") {
+			continue
+		}
+		if now := vfAwaitOutcome(wt.ptr, nil); now != wt.returned || wt.ptr.TestName != wt.ptrName {
+			rep.Violation("handoff/delivered-trace-changed-later", fmt.Sprintf("the trace handed to a waiter on %q read %s (name %q) when delivered and reads %s (name %q) after the rest of the sequence", wt.name, wt.returned, wt.ptrName, now, wt.ptr.TestName), w)
+		} else {
+			rep.Count("delivered_traces_rechecked", 1)
 		}
 	}
 }
